@@ -37,6 +37,54 @@ def scenarios():
             yield [g1, g2]
 
 
+class Vec(list):
+    """stand-in for a 1-D numpy array of volumes: arithmetic and comparisons are element-wise"""
+
+    def _zip(self, other, fn):
+        if isinstance(other, list):
+            if len(other) != len(self):
+                raise Unsupported("shape mismatch")
+            return Vec(fn(a, b) for a, b in zip(self, other))
+        return Vec(fn(a, other) for a in self)
+
+
+def _arith(op, a, b):
+    import operator
+
+    table = {ast.Add: operator.add, ast.Sub: operator.sub, ast.Mult: operator.mul, ast.FloorDiv: operator.floordiv, ast.Div: operator.truediv, ast.Mod: operator.mod}
+    fn = table.get(type(op))
+    if fn is None:
+        raise Unsupported(type(op).__name__)
+    if isinstance(a, Vec):
+        return a._zip(b, fn)
+    if isinstance(b, Vec):
+        return b._zip(a, lambda y, x: fn(x, y))
+    return fn(a, b)
+
+
+def _elementwise(fn):
+    def run(x, *rest):
+        if isinstance(x, Vec):
+            return Vec(fn(v, *rest) for v in x)
+        return fn(x, *rest)
+
+    return run
+
+
+import math as _math
+
+NUMPY_FUNCS = {"ceil": _elementwise(_math.ceil), "floor": _elementwise(_math.floor), "maximum": lambda a, b: _arith_fn(max, a, b), "minimum": lambda a, b: _arith_fn(min, a, b),
+               "count_nonzero": lambda x: sum(1 for v in x if v), "array": lambda x: Vec(x), "asarray": lambda x: Vec(x), "clip": None}
+
+
+def _arith_fn(fn, a, b):
+    if isinstance(a, Vec):
+        return a._zip(b, fn)
+    if isinstance(b, Vec):
+        return b._zip(a, lambda y, x: fn(x, y))
+    return fn(a, b)
+
+
 SAFE_FUNCS = {"len": len, "sum": sum, "max": max, "min": min, "abs": abs, "int": int, "float": float, "bool": bool, "list": list, "tuple": tuple,
               "sorted": sorted, "range": range, "zip": zip, "enumerate": enumerate, "any": any, "all": all, "round": round}
 
@@ -69,21 +117,12 @@ class Ev:
             return self.name(e, at, local)
         if isinstance(e, (ast.List, ast.Tuple)):
             return [self.ev(x, at, local) for x in e.elts]
+        if isinstance(e, ast.Attribute) and isinstance(e.value, ast.Name) and f"{e.value.id}.{e.attr}" in self.env:
+            return self.env[f"{e.value.id}.{e.attr}"]
         if isinstance(e, ast.BinOp):
             a, b = self.ev(e.left, at, local), self.ev(e.right, at, local)
             try:
-                if isinstance(e.op, ast.Add):
-                    return a + b
-                if isinstance(e.op, ast.Sub):
-                    return a - b
-                if isinstance(e.op, ast.Mult):
-                    return a * b
-                if isinstance(e.op, ast.FloorDiv):
-                    return a // b
-                if isinstance(e.op, ast.Div):
-                    return a / b
-                if isinstance(e.op, ast.Mod):
-                    return a % b
+                return _arith(e.op, a, b)
             except (ZeroDivisionError, TypeError) as ex:
                 raise Unsupported(str(ex))
             raise Unsupported(type(e.op).__name__)
@@ -106,6 +145,10 @@ class Ev:
                 fn = table.get(type(op))
                 if fn is None:
                     raise Unsupported(type(op).__name__)
+                if isinstance(left, Vec) or isinstance(right, Vec):
+                    if len(e.ops) != 1:
+                        raise Unsupported("chained array comparison")
+                    return _arith_fn(fn, left, right)
                 if not fn(left, right):
                     return False
                 left = right
@@ -146,6 +189,12 @@ class Ev:
                 return [SAFE_FUNCS[e.args[0].id](x) for x in self.ev(e.args[1], at, local)]
             # only builtins called by their bare name, or numpy's aggregate aliases
             plain = isinstance(e.func, ast.Name) or (isinstance(e.func, ast.Attribute) and isinstance(e.func.value, ast.Name) and e.func.value.id in ("np", "numpy", "math") and fn in ("sum", "max", "min", "abs"))
+            numpyish = isinstance(e.func, ast.Attribute) and isinstance(e.func.value, ast.Name) and e.func.value.id in ("np", "numpy", "math")
+            if numpyish and NUMPY_FUNCS.get(fn) is not None and not e.keywords:
+                try:
+                    return NUMPY_FUNCS[fn](*[self.ev(a, at, local) for a in e.args])
+                except (ValueError, TypeError) as ex:
+                    raise Unsupported(f"{fn}: {ex}")
             if fn in SAFE_FUNCS and plain:
                 args = [self.ev(a, at, local) for a in e.args]
                 kw = {k.arg: self.ev(k.value, at, local) for k in e.keywords}
@@ -263,12 +312,16 @@ def evaluate(ctx, t, L: str, cnt: str, step_counter: Optional[str]) -> Tuple[str
         return [(cfg.nodes[d].ast, pol, d) for d, pol in fv.controlling(nid, within=within, skip_raising=True)]
 
     n_checked = 0
-    for sc in scenarios():
+    selfn = fv.f.params[0] if fv.f.params else "self"
+    # two worklist limits that both produce the table's step lists from the requested volumes 0 / 5 / 10 / 15:
+    # 5.0 (every volume an exact multiple of the limit) and 6.0 (none is)
+    for limit, sc in ((m, x) for m in (5.0, 6.0) for x in scenarios()):
         groups = [[list(WELL_LISTS[i]) for i in g] for g in sc]
         required = sum(max(len(l) - 1, 0) for g in groups for l in g)
         executed = sum(1 for g in groups for l in g for v in l if v > 0)
         nwells = sum(len(g) for g in groups)
-        genv: Dict[str, Any] = {"source_wells": ["w"] * nwells, "destination_wells": ["w"] * nwells, "volumes": [float(sum(l)) for g in groups for l in g]}
+        genv: Dict[str, Any] = {"source_wells": ["w"] * nwells, "destination_wells": ["w"] * nwells, "volumes": Vec(float(sum(l)) for g in groups for l in g),
+                                f"{selfn}.max_volume": limit, f"{selfn}.auto_split": True}
         try:
             total = None
             # pre-loop value
@@ -283,7 +336,7 @@ def evaluate(ctx, t, L: str, cnt: str, step_counter: Optional[str]) -> Tuple[str
                 return "unknown", "counter has no initial value"
             for g in groups:
                 env = dict(genv)
-                env[gnames[0]], env[gnames[1]], env[gnames[2]] = ["w"] * len(g), ["w"] * len(g), [float(sum(l)) for l in g]
+                env[gnames[0]], env[gnames[1]], env[gnames[2]] = ["w"] * len(g), ["w"] * len(g), Vec(float(sum(l)) for l in g)
                 env[L] = g
                 ev = Ev(fv, env)
                 gbody = cfg.loop_body[G]
@@ -323,7 +376,8 @@ def evaluate(ctx, t, L: str, cnt: str, step_counter: Optional[str]) -> Tuple[str
         # a negative count is never printed as such only if the label test is `> 0`; compare what would be reported
         if total != required and not (total <= 0 and required == 0 and _label_needs_positive(fv, cnt)):
             shape = [[len(l) for l in g] for g in groups]
-            return "refuted", (f"for column groups with per-well step counts {shape} the counter evaluates to {total}, but splitting added "
+            vols = [[float(sum(l)) for l in g] for g in groups]
+            return "refuted", (f"for column groups with per-well step counts {shape} (requested volumes {vols}, max_volume {limit}) the counter evaluates to {total}, but splitting added "
                                f"{required} extra aspirate/dispense pair(s) (sum of max(len(steps) - 1, 0))")
     return "holds", f"counter equals sum(max(len(steps) - 1, 0)) on all {n_checked} scenarios of the length table"
 
